@@ -203,6 +203,13 @@ def main():
     S.model_check(rep, MODELS[a.tier])
     # the property is not vacuous: a faulty variant of the model is refuted
     S.model_refutes(rep, 'HierBad', 'MC_HierBad_stale.cfg', ['Chain', 'NoStaleAdoption'])
+    # composition of the phases (Session.tla): hand-over, report, file
+    S.model_check(rep, [('Session', 'MC_Session_%s.cfg' % st, 300)
+                        for st in ('ddmin', 'hierarchical', 'hybrid')])
+    S.model_refutes(rep, 'Session', 'MC_Session_bad_stale-handover.cfg',
+                    ['HandOver'])
+    S.model_refutes(rep, 'Session', 'MC_Session_bad_stale-result.cfg',
+                    ['FileIsCurrent'])
     for v in ('noskip', 'lower'):
         S.model_refutes(rep, 'DdminBad', f'MC_DdminBad_{v}.cfg',
                         ['Chain', 'NoStaleAdoption'])
